@@ -430,6 +430,7 @@ func TestReplay(t *testing.T) {
 			return checkStmtProgram(&c)
 		},
 		"frames": replayFrames,
+		"splice": replaySplice,
 		"canary": func(raw json.RawMessage) *ev.Failure {
 			var c Case
 			json.Unmarshal(raw, &c)
